@@ -419,6 +419,10 @@ func moveOutFile(w *bytes.Buffer, param *syntax.StructMember,
 	// If file doesn't exist (e.g. stage just didn't create it)
 	// then report null
 	if info, err := os.Lstat(filePath); os.IsNotExist(err) {
+		if recovered, err := recoverMovedOutFile(w, param,
+			filePath, pipestancePath, outsPath); recovered {
+			return err
+		}
 		_, err := w.Write(nullBytes)
 		return err
 	} else if err != nil {
@@ -495,6 +499,42 @@ func moveOutFile(w *bytes.Buffer, param *syntax.StructMember,
 		return err
 	}
 	return err
+}
+
+// Handles the case where a previous post-processing run was interrupted
+// after it had moved a file to outs/ but before it had left the symlink
+// behind in the original location: the file is no longer found where the
+// outs record says it is, but it is already in outs/.  In that case the
+// symlink is put in place now and the location in outs/ is reported, rather
+// than reporting the output as missing.
+//
+// Returns true if it wrote a value.
+func recoverMovedOutFile(w *bytes.Buffer, param *syntax.StructMember,
+	filePath, pipestancePath, outsPath string) (bool, error) {
+	// Files are only moved if they were inside the pipestance.
+	if absFilePath, err := filepath.Abs(filePath); err != nil {
+		return false, nil
+	} else if absPipestancePath, err := filepath.Abs(pipestancePath); err != nil ||
+		!strings.Contains(absFilePath, absPipestancePath) {
+		return false, nil
+	}
+	outPath := path.Join(outsPath, param.GetOutFilename())
+	if info, err := os.Lstat(outPath); err != nil ||
+		info.Mode()&os.ModeSymlink != 0 {
+		return false, nil
+	}
+	b, err := json.Marshal(outPath)
+	if err != nil {
+		return false, nil
+	}
+	if _, err := w.Write(b); err != nil {
+		return true, err
+	}
+	relPath, err := filepath.Rel(filepath.Dir(filePath), outPath)
+	if err != nil {
+		return true, err
+	}
+	return true, os.Symlink(relPath, filePath)
 }
 
 // Copies a symlink to the outs directory.  If the symlink was absolute, this
